@@ -6,10 +6,13 @@ package task
 
 import (
 	"errors"
+	"time"
 
 	"github.com/AliceO2Group/Control/common/utils/uid"
 	"github.com/AliceO2Group/Control/core/controlcommands"
+	"github.com/AliceO2Group/Control/core/task/taskclass"
 	vrt "github.com/AliceO2Group/Control/zz_vrt"
+	"github.com/spf13/viper"
 )
 
 const (
@@ -75,4 +78,41 @@ func HarnessTransitionTasks() {
 		vrt.Assert(err != nil, "a-critical-task-that-did-not-acknowledge-fails-the-transition")
 		vrt.Reach("failed")
 	}
+}
+
+// The critical trait of a deployed task must not depend on housekeeping: the tasks look their class up in the
+// manager's class cache, which every workflow load cleans up (entries past their time-to-live whose class no task
+// in the roster uses any more). A single critical task answering with an error fails the transition whether or
+// not a cleanup ran before and however old its cache entry is.
+//verif:entry HarnessCriticalTraitSurvivesClassCleanup unwind=16 timers=lazy preempt=1 reach=cleaned,untouched stub=github.com/AliceO2Group/Control/common/utils.TimeTrack
+func HarnessCriticalTraitSurvivesClassCleanup() {
+	env := uid.ID("2oDvieFrVTi")
+	t, _ := ftTask("a", env, true)
+	other, _ := ftTask("b", "", false) // a class nobody uses any more
+	var w *ftWorld
+	w = ftManager(Tasks{t}, func(cmd controlcommands.MesosCommand, rcv controlcommands.MesosCommandTarget) error {
+		tcmd := cmd.(*controlcommands.MesosCommand_Transition)
+		res := controlcommands.NewMesosCommandResponse_Transition(tcmd, errors.New("task did not reach the expected state"), "whatever", rcv.TaskId.Value)
+		go w.servent.ProcessResponse(res, rcv)
+		return nil
+	})
+	viper.Set("taskClassCacheTTL", 168*time.Hour)
+	for _, x := range []*Task{t, other} {
+		x := x
+		w.m.classes.UpdateClass(x.className, x.GetTaskClass())
+		if vrt.Bool("class.cache.entry.expired") {
+			cl, _ := w.m.classes.GetClass(x.className)
+			cl.UpdatedTimestamp = time.Now().Add(-200 * time.Hour)
+		}
+		x.GetTaskClass = func() *taskclass.Class { return w.m.GetTaskClass(x.className) }
+	}
+	if vrt.Bool("class.cache.cleanup.before") {
+		w.m.removeInactiveClasses()
+		vrt.Reach("cleaned")
+	} else {
+		vrt.Reach("untouched")
+	}
+	vrt.Assert(t.GetTraits().Critical, "a-deployed-task-keeps-its-critical-trait")
+	err := w.m.transitionTasks(env, Tasks{t}, "CONFIGURED", "START", "RUNNING", controlcommands.PropertyMap{"runNumber": "42"})
+	vrt.Assert(err != nil, "a-critical-task-that-did-not-acknowledge-fails-the-transition")
 }
